@@ -1055,18 +1055,139 @@ def explore(scenario, params, *, max_paths=None, max_violations=3, deadline=None
     return {'stats': stats, 'violations': violations, 'samples': samples, 'complete': complete}
 
 
-def replay(scenario, params, model):
-    """Run the scenario concretely. Returns (failures, exception_or_None, env)."""
+class ReplayTimeout(ReplayMismatch):
+    pass
+
+
+class PinnedEnv(SymEnv):
+    """Exact replay: the symbolic engine with every input variable pinned to its model value.
+    The path is then unique; arithmetic is exact (rationals), so the float artefacts a plain
+    concrete run can have on the virtual clock (IEEE rounding vs. microsecond truncation) cannot
+    occur.  Used for reachability twins and as a second replay mode after the plain one."""
+
+    def __init__(self, model):
+        super().__init__(Stats(), [])
+        self.pin = dict(model['vars'])
+        self.decisions = list(model['decisions'])
+        self.failures = []
+        self.passed = []
+
+    def _pin(self, name, v, conv):
+        if name in self.pin:
+            self.solver.add(v == conv(self.pin[name]))
+
+    def real(self, name, lo=None, hi=None, lo_open=False, hi_open=False):
+        r = super().real(name, lo, hi, lo_open, hi_open)
+        n = list(self.vars)[-1]
+        self._pin(n, self.vars[n], lambda x: z3.RealVal(str(x)))
+        return r
+
+    def int(self, name, lo=None, hi=None):
+        r = super().int(name, lo, hi)
+        n = list(self.vars)[-1]
+        self._pin(n, self.vars[n], lambda x: z3.IntVal(int(x)))
+        return r
+
+    def bool(self, name):
+        r = super().bool(name)
+        n = list(self.vars)[-1]
+        self._pin(n, self.vars[n], lambda x: z3.BoolVal(bool(x)))
+        return r
+
+    def str(self, name):
+        r = super().str(name)
+        n = list(self.vars)[-1]
+        self._pin(n, self.vars[n], lambda x: z3.StringVal(x))
+        return r
+
+    def choose(self, n, label='c'):
+        if n <= 1:
+            return 0
+        if not self.decisions:
+            return 0
+        v = self.decisions.pop(0)
+        if not 0 <= v < n:
+            raise ReplayMismatch(f"choice {label}: {v} not in range({n})")
+        return v
+
+    def branch(self, cond):
+        cond = z3.simplify(cond)
+        if z3.is_true(cond):
+            return True
+        if z3.is_false(cond):
+            return False
+        can_t = self._check(cond) == z3.sat
+        if can_t and self._check(z3.Not(cond)) == z3.sat:
+            # an internal under-specified value (round() tie): take the true side
+            pass
+        self.solver.add(cond if can_t else z3.Not(cond))
+        return can_t
+
+    def assume(self, cond, why=''):
+        if isinstance(cond, bool):
+            if not cond:
+                raise ReplayMismatch(f"assumption not met by the model: {why}")
+            return
+        if self._check(zof(cond)) != z3.sat:
+            raise ReplayMismatch(f"assumption not met by the model: {why}")
+        self.solver.add(zof(cond))
+
+    def check(self, label, cond, info=None):
+        if isinstance(cond, bool):
+            ok = cond
+        else:
+            ok = self._check(z3.Not(zof(cond))) == z3.unsat
+        if ok:
+            self.passed.append(label)
+        else:
+            self.failures.append((label, repr(info() if callable(info) else info)))
+        return ok
+
+
+def replay_pinned(scenario, params, model):
     global CUR
-    env = ConcreteEnv(model)
+    env = PinnedEnv(model)
     CUR = env
     exc = None
     try:
         scenario(env, **params)
+    except (ReplayMismatch, Inconclusive):
+        raise
+    except Exception as err:
+        exc = err
+    finally:
+        CUR = None
+    return env.failures, exc, env
+
+
+class _Alarm(BaseException):
+    pass
+
+
+def replay(scenario, params, model, timeout_s=60):
+    """Run the scenario concretely. Returns (failures, exception_or_None, env).
+    A wall-time limit guards against float artefacts of the concrete run (e.g. a zero-time busy
+    loop on the virtual clock caused by IEEE rounding, which the exact symbolic run cannot have)."""
+    global CUR
+    import signal
+    env = ConcreteEnv(model)
+    CUR = env
+    exc = None
+
+    def on_alarm(signum, frame):
+        raise _Alarm()
+    old = signal.signal(signal.SIGALRM, on_alarm)
+    signal.setitimer(signal.ITIMER_REAL, timeout_s)
+    try:
+        scenario(env, **params)
+    except _Alarm:
+        raise ReplayTimeout(f"concrete replay did not finish within {timeout_s} s")
     except ReplayMismatch:
         raise
     except Exception as err:
         exc = err
     finally:
+        signal.setitimer(signal.ITIMER_REAL, 0)
+        signal.signal(signal.SIGALRM, old)
         CUR = None
     return env.failures, exc, env
